@@ -113,9 +113,11 @@ type foViolation struct {
 
 // runFoScenario executes one scenario; returns the trace (for distinctness), flags and a violation if any.
 var lastLoneResult *getResult
+var lastCorr *foViolation // the model/implementation disagreement of the last scenario, if any
 
 func runFoScenario(d *Driver, id string, sc foScenario, res *Result) (trace []string, viol *foViolation) {
 	lastLoneResult = nil
+	lastCorr = nil
 	ctx := context.Background()
 	s := newSched()
 	keys := NewKeyTable()
@@ -377,11 +379,13 @@ func runFoScenario(d *Driver, id string, sc foScenario, res *Result) (trace []st
 				return &foViolation{"C05", "monitor", "fo:failure-ttl", fmt.Sprintf("after %s: cached failure expiry outside FailedUpdateTTL bounds: %s", step, reply), nil}
 			}
 			firstCorr = &foViolation{"", "correspondence", "fo:disabled-step", fmt.Sprintf("%s is not a step of the model here (model: %s)", step, d.Ask("fo summary "+id)), nil}
+			lastCorr = firstCorr
 			return nil
 		}
 		impl := summary()
 		if m := normModel(reply); m != impl {
 			firstCorr = &foViolation{"", "correspondence", "fo:position", fmt.Sprintf("after %s:\n impl : %s\n model: %s", step, impl, m), nil}
+			lastCorr = firstCorr
 		}
 		return nil
 	}
@@ -903,6 +907,9 @@ func runFo(o Opts) *Result {
 		rep["driver_log_tail"] = tail(d.Log, 25)
 		rep["rerun"] = fmt.Sprintf("harness fo -profile %s -seed %d -only %d", o.Profile, o.Seed, idx)
 		res.Violations = append(res.Violations, Violation{Property: v.prop, Also: v.also, Kind: v.kind, Sig: v.sig + ":" + sc.Cfg.Variant, Detail: v.detail, Replay: rep})
+		if lastCorr != nil && v != lastCorr {
+			res.Violations = append(res.Violations, Violation{Kind: "correspondence", Sig: lastCorr.sig + ":" + sc.Cfg.Variant, Detail: lastCorr.detail, Replay: rep})
+		}
 		if len(res.Violations) >= 5 {
 			break
 		}
